@@ -7,6 +7,7 @@ package hserver
 // restart the HTTP answer and everything logged since the previous step are searched for every canary (raw and base64 forms).
 
 import (
+	"encoding/json"
 	"encoding/base64"
 	"fmt"
 	"strings"
@@ -84,6 +85,7 @@ func c18Body(t *rapid.T) {
 	var tasks []task
 	ntask := 0
 	crossCreds := 0
+	nOverlap := 0
 
 	create := func(t *rapid.T, mode string) {
 		req := map[string]any{}
@@ -203,6 +205,46 @@ func c18Body(t *rapid.T) {
 			hist = append(hist, fmt.Sprintf("%s(%s,fail=%v)->%d", typ, ta.label, withFail, r.Code))
 			scan(typ, r.Raw)
 		},
+		"overlappingRequests": func(t *rapid.T) {
+			// the same pause / resume request twice, the second one handled after the first has saved the new state but before it
+			// has finished: the second meets a persisted state it does not expect (a failure path that reports on the task record)
+			ta, ok := pick(t)
+			if !ok || nOverlap >= 2 {
+				t.Skip("no task")
+			}
+			typ := rapid.SampledFrom([]string{"pause", "resume"}).Draw(t, "typ")
+			saved := make(chan struct{})
+			var n atomic.Int32
+			w.inc.store.setAfter(func(op *storeOp) {
+				if op.Kind == "info.put" && n.Add(1) == 1 {
+					close(saved)
+					time.Sleep(150 * time.Millisecond) // schedule aid: the first request stays between saving and finishing
+				}
+			})
+			first := make(chan resp, 1)
+			body, _ := json.Marshal(map[string]any{"request_type": typ, "request_data": map[string]any{"task_id": ta.id}})
+			go func() {
+				r, _ := w.inc.postRaw("POST", body)
+				first <- r
+			}()
+			var second resp
+			select {
+			case <-saved:
+				second, _ = w.inc.postRaw("POST", body)
+			case r1 := <-first:
+				// the first request did not save anything (it was not legal in the task's state): nothing overlaps
+				first <- r1
+			}
+			r1 := <-first
+			w.inc.store.setAfter(nil)
+			nOverlap++
+			if second.Code != 0 && second.Code != 200 {
+				failurePaths++
+			}
+			hist = append(hist, fmt.Sprintf("%s(%s) twice overlapping ->%d,%d", typ, ta.label, r1.Code, second.Code))
+			scan(typ+" (first of two overlapping)", r1.Raw)
+			scan(typ+" (second of two overlapping)", second.Raw)
+		},
 		"delete": func(t *rapid.T) {
 			ta, ok := pick(t)
 			if !ok {
@@ -253,6 +295,7 @@ func c18Body(t *rapid.T) {
 	st.ClassIf(failurePaths > 0, "failure_path_after_secrets_accepted")
 	st.ClassIf(kafkaTasks > 0, "kafka_target")
 	st.ClassIf(crossCreds > 0, "credentials_in_the_other_connect_param")
+	st.ClassIf(nOverlap > 0, "overlapping_pause_or_resume_requests")
 	st.ClassIf(w.nInc > 1, "restart")
 	st.Count("secrets", len(secrets))
 	st.NonTrivial(failurePaths > 0 && len(secrets) > 0)
